@@ -2,7 +2,7 @@
 # runs the round-2 seeded changes (m4, m5) against the quick check of their own property (+ related); -> seeded/RESULTS2.tsv
 cd /verif
 declare -A extra
-extra[C02-m5]="C19"; extra[C04-m5]="C11"; extra[C04-m4]="C11"; extra[C20-m5]="C14"
+extra[C02-m5]="C19"; extra[C04-m5]="C11"; extra[C04-m4]="C11"; extra[C20-m5]="C14"; extra[C07-m5]="C05"
 out=/verif/seeded/RESULTS2.tsv
 echo -e "mutant\tproperty\texit\tdetail" > $out
 for d in seeded/C*-m[45]/; do
